@@ -54,7 +54,7 @@ def cases(tier, seed):
 
 def leaf_array(rng, mode, R):
     dt = DT[mode]
-    kind = R.choice(["normal", "negative", "single", "nanrows", "allnan", "wide", "tiny", "clipped0", "nonpositive0", "zeros"])
+    kind = R.choice(["normal", "negative", "single", "nanrows", "allnan", "wide", "tiny", "clipped0", "nonpositive0", "zeros", "huge"])
     if np.dtype(dt).kind == "i":
         a = rng.integers(1, 20000, (256, 256)).astype(dt)
         if kind == "single":
@@ -83,6 +83,9 @@ def leaf_array(rng, mode, R):
         a = (a * 1e6 + 3e7).astype(dt)
     elif kind == "tiny":
         a = (a * 1e-6).astype(dt)
+    elif kind == "huge":
+        # magnitudes near the top of single precision, and - in double-precision pyramids - far beyond it
+        a = (a * (10.0 ** R.choice([37.8, 39.0, 120.0, 300.0]) if mode == "F64" else 1e37)).astype(dt)
     return a
 
 
